@@ -9,8 +9,9 @@ from .c05 import make_case as rule_case
 
 PROP = "C15"
 IMPORTS = sc.IMPORTS
-THEOREMS = []
-FACT_LEMMAS = []
+THEOREMS = ['C15_rule_model_is_spec', 'C15_schema_model_is_spec', 'C15_cast_applied', 'C15_uncastable_left', 'C15_everywhere_else', 'C15_schema_cast_data']
+FACT_LEMMAS = ['Tie.tie_build', 'Tie.tie_call', 'C01Proof.caught_call_ok']
+DEPENDS = ['Py.v', 'Lang.v', 'Defs.v', 'Cond.v', 'Dsl.v', 'Check.v', 'DocSem.v', 'Inst.v', 'Gen/TablesGen.v', 'Gen/CallablesGen.v', 'Proofs/Tie.v', 'Proofs/PyFacts.v', 'Proofs/C01Proof.v', 'Proofs/C02Proof.v', 'Path.v', 'PathSpec.v', 'Run.v', 'Proofs/C03Proof.v', 'Proofs/C04Proof.v', 'Cast.v', 'RuleDefs.v', 'RuleSpec.v', 'RuleTerms.v', 'Rule.v', 'RunRule.v', 'Proofs/RuleProof.v', 'Proofs/SchemaSpecProof.v', 'Properties/C15.v']
 ASSUMPTIONS = ["Layer P models CPython's operators (pysem)", "int(str) is modelled for ASCII digits / whitespace / sign / underscores"]
 
 CASTABLE = ["true", "FALSE", "True", "3", " 3 ", "1_0", "-7", "+2", "007"]
